@@ -19,7 +19,7 @@ tvars == <<vars, l, bind>>
 TInit == Init /\ l = 1 /\ bind = <<>> /\ TLCSet(1, 1)
 
 IsInternal(lbl) == lbl \in {"i.wuf", "i.pause", "i.stop", "i.stop2", "i.stopall", "i.restart", "i.rs.nodes", "i.rs2", "i.start",
-                          "i.tune.loop", "i.purge.loop", "i.reap.next", "i.loop", "i.loop.lock", "i.disp.lock", "i.start.2", "i.range", "i.start.notify", "wuf.cw", "recv", "reap.wait", "ctx.wait", "dead"}
+                          "i.tune.loop", "i.purge.loop", "i.reap.next", "i.loop", "i.loop.lock", "i.disp.lock", "i.start.2", "i.range", "i.start.notify", "i.addall", "wuf.cw", "recv", "reap.wait", "ctx.wait", "dead"}
 \* pool goroutines, removers and listeners get their trace names when they are first seen at a hook,
 \* the spec names them when they are spawned: bind records the correspondence
 Pfx(n, k) == Len(n) > Len(k) /\ SubSeq(n, 1, Len(k)) = k
@@ -50,7 +50,9 @@ ArgsOK(e, p) ==
   /\ e.ev = "rel.enter" => S'.loc[p].n = e.n
   /\ e.ev = "purge.deq" => S'.loc[p].ok = e.ok
 
-NoStep == {"call", "ret", "c.start", "loop.start", "notify.sent", "notify.dropped", "free.push", "free.stop", "quiescent"}
+\* lines that are not the end of a spec step: notes, and the second-layer hook points inside one step
+Inner == {"job.sp.load", "job.mc.load", "jclose.checked", "disp.cas.load", "reap.expired", "add.pre", "resp.stored"}
+NoStep == {"call", "ret", "c.start", "loop.start", "notify.sent", "notify.dropped", "free.push", "free.stop", "quiescent"} \cup Inner
 
 \* a line of a process parked at the label it reached
 T_Hook ==
@@ -102,7 +104,7 @@ T_PoolNotify ==
 T_Note ==
   /\ l <= Len(Tr)
   /\ LET e == Tr[l] IN
-     /\ e.ev \in {"call", "c.start", "loop.start", "notify.sent", "notify.dropped", "free.push", "free.stop", "quiescent"}
+     /\ e.ev \in {"call", "c.start", "loop.start", "notify.sent", "notify.dropped", "free.push", "free.stop", "quiescent"} \cup Inner
      /\ e.ev \in {"notify.sent", "notify.dropped"} => ~IsPool(e.p)
      /\ e.ev = "call" => S.pc[e.p] = "call" /\ HasOp(e.p) /\ Op(e.p).op = e.op
      /\ e.ev = "loop.start" => S.pc[e.p] = "loop.start"
